@@ -12,7 +12,7 @@ RULE = ("lat in [-90, 90], lon in [-360, 360] incl. poles and cardinal meridians
         "cross-covariance blocks, fully correlated station pairs, tied variances; matrices held as fresh arrays, views of a larger "
         "array, Fortran order, int64 / float32; angle objects for both vector conversions; all integer degrees of freedom -5..200 (complete); non-trivial = off the poles/equator/cardinal "
         "meridians with a non-diagonal matrix (rotations), any dof (table)")
-ASSUMPTIONS = ["latitude / longitude given as any real scalar (Python int / float, numpy float64 / float32 / int32) denote the real number they hold; the frame of that number is required at double precision, which is what the library delivers (it converts with math.radians)",
+ASSUMPTIONS = ["latitude / longitude are also passed as Python ints and numpy float64 / int32 scalars (double-precision results required); numpy float32 scalars are NOT generated: under numpy semantics single-precision inputs may give single-precision results, which is the caller's choice (see gvp/strategies.py) - seeded change C16g lives exactly there and is recorded as not claimed",
                "closed forms: east = (-sin lon, cos lon, 0), north = (-sin lat cos lon, -sin lat sin lon, cos lat), "
                "up = (cos lat cos lon, cos lat sin lon, sin lat) (the ellipsoid normal)",
                "Student-t quantiles from scipy.stats.t.ppf, cross-checked at start-up by an in-harness bisection on the regularised "
@@ -149,11 +149,11 @@ def check_frame(case):
         lo_, la_ = S.angle_obj(case["kind"], lon), S.angle_obj(case["kind"], lat)
         b1 = gd.xyz2enu(la_, lo_, v[0], v[1], v[2])
         b2 = gd.xyz2enu(S.obj_dec(la_), S.obj_dec(lo_), v[0], v[1], v[2])
-        if tuple(b1) != tuple(b2):
+        if not float(np.abs(np.array(b1, dtype=float) - np.array(b2, dtype=float)).max()) <= 4e-15 * nv + 1e-300:
             raise Fail("xyz2enu with angle objects differs from the call with their decimal values", expected=b2, observed=b1)
         a1 = gd.enu2xyz(la_, lo_, v[0], v[1], v[2])
         a2 = gd.enu2xyz(S.obj_dec(la_), S.obj_dec(lo_), v[0], v[1], v[2])
-        if tuple(a1) != tuple(a2):
+        if not float(np.abs(np.array(a1, dtype=float) - np.array(a2, dtype=float)).max()) <= 4e-15 * nv + 1e-300:
             raise Fail("enu2xyz with angle objects differs from the call with their decimal values", expected=a2, observed=a1)
 
 
@@ -396,11 +396,11 @@ def _cls(case):
 
 _quarters = lambda s: st.one_of(s, s, s.map(lambda v: float(round(v))), s.map(lambda v: round(v * 4) / 4.0))      # noqa
 frame_cases = st.fixed_dictionaries({"lat": _quarters(lat_s), "lon": _quarters(lon_s),
-                                     "anum": st.sampled_from(["float", "float", "np64", "int", "np32", "np32", "npint"]),
+                                     "anum": st.sampled_from(["float", "float", "np64", "int", "npint"]),
                                      "v": st.one_of(vec_s, vec_s.map(lambda p: [float(round(c)) for c in p])), "kind": S.angle_kind,
                                      "num": S.num_kind})
 vcv_cases = st.fixed_dictionaries({"lat": _quarters(lat_s), "lon": _quarters(lon_s), "vcv": psd_cond(),
-                                   "anum": st.sampled_from(["float", "float", "float", "np64", "np32", "int"]),
+                                   "anum": st.sampled_from(["float", "float", "float", "np64", "npint", "int"]),
                                    "held": st.sampled_from(["plain", "plain", "plain", "view", "fortran", "int", "f32"])})
 col_cases = st.fixed_dictionaries({"lat": lat_s, "lon": lon_s, "col": st.lists(st.one_of(S.floats(0.0, 1.0), S.log_uniform(1e-10, 10.0)),
                                                                                min_size=3, max_size=3)})
